@@ -585,6 +585,20 @@ class Program:
             self._assigned, self._assigned_n = names, len(self.mods)
         return attr in self._assigned
 
+    HANDLED_DUNDERS = {"__init__", "__repr__", "__str__", "__format__", "__getitem__", "__setitem__", "__post_init__",
+                       "__init_subclass__", "__class_getitem__"}
+
+    def unhandled_dunders(self):
+        """special methods of pewlib's own classes that Python calls implicitly (iteration, operators, comparisons,
+        context managers, attribute hooks, ...) and this translator does not follow"""
+        out = []
+        for k, cls in self.classes.items():
+            for n in cls.body:
+                if isinstance(n, ast.FunctionDef) and n.name.startswith("__") and n.name.endswith("__") \
+                        and n.name not in Program.HANDLED_DUNDERS:
+                    out.append(f"{k[1]}.{n.name}")
+        return sorted(out)
+
     def methods_named(self, name):
         out = []
         for k, cls in self.classes.items():
@@ -637,8 +651,14 @@ def keyword_literal(e: ast.Call, name: str):
 
 
 def free_names(fn) -> set:
-    """names read inside a lambda / nested function (over-approximation of its free variables)"""
-    return {n.id for n in ast.walk(fn) if isinstance(n, ast.Name) and isinstance(n.ctx, ast.Load)}
+    """names read inside a lambda / nested function that are not its own parameters or locals (its free variables, and
+    those of the functions nested in it)"""
+    a = fn.args
+    own = {x.arg for x in a.posonlyargs + a.args + a.kwonlyargs} | {x.arg for x in (a.vararg, a.kwarg) if x}
+    if isinstance(fn, ast.FunctionDef):
+        nonlocal_ = {x for n in ast.walk(fn) if isinstance(n, (ast.Nonlocal, ast.Global)) for x in n.names}
+        own |= {n.id for n in ast.walk(fn) if isinstance(n, ast.Name) and isinstance(n.ctx, (ast.Store, ast.Del))} - nonlocal_
+    return {n.id for n in ast.walk(fn) if isinstance(n, ast.Name) and isinstance(n.ctx, ast.Load)} - own
 
 
 def assigned_names(fn) -> set:
@@ -1029,6 +1049,9 @@ class Translator:
         nparams = len(params) - (1 if constructor else 0)
         pnames = [n for i, (n, _) in enumerate(params) if not (constructor and i == 0)]
         try:
+            bad_dunders = self.prog.unhandled_dunders()
+            if bad_dunders:
+                raise Unsupported(f"classes define special methods that are called implicitly and not followed: {bad_dunders[:5]}")
             ir = self._translate(mod, fn, cls_key, constructor, params)
             # fail closed per variable: one that is read while possibly unbound is bound to `unknown` at entry
             poisoned, own_doing = [], set()
@@ -1080,6 +1103,7 @@ class Translator:
                 scope.selfvar = v
             scope.annotate(v, mod, ann, is_self=(i == 0 and cls_key is not None))
             scope.immutable_param[name] = ann is not None and is_immutable_annotation(ann)
+        scope.prebind_captured(fn, out)
         scope.block(fn.body, out, stack=[(mod, fn.name)])
         if constructor:
             scope.ret(scope.name_val(params[0][0]), out)
@@ -1286,6 +1310,13 @@ class Scope:
                         r = r.value
                     if isinstance(r, ast.Name):
                         self.maybe_written.add(r.id)
+
+    def prebind_captured(self, fn, out):
+        """local names that nested functions / lambdas read are only ever weakly updated (`v := v | new`: the closure
+        reads them when it runs, whenever that is), so they are bound (to nothing) before the body"""
+        for name in sorted(self.weak & assigned_names(fn)):
+            if name not in self.vars:
+                out.append(["bind", self.var(name), ["fresh", self.tr.site()]])
 
     # ------------------------------------------------------------------ facts
     @property
@@ -1814,8 +1845,12 @@ class Scope:
                 vals = [self.function_value(n, out, stack) for kind, n in self.funcvals[e.id] if kind == "node"]
                 return union(vals) if vals else FRESH
             r = self.tr.prog.resolve_name(self.mod, e)
+            if r is not None and r[0] == "ext":
+                m, _, n = r[1].rpartition(".")
+                if m in self.tr.prog.mods and self.tr.prog.global_kind(m, n) in ("literal", "mutable"):
+                    return Val([self.tr.gvar])  # a module-level object of another pewlib module
             if r is not None:
-                return FRESH  # a pewlib function / class / module or an imported object: not mutable data we track
+                return FRESH  # a pewlib function / class / module or an object of another library: not data we track
             g = self.global_val(e.id)
             if g is not None:
                 return g
@@ -2705,6 +2740,7 @@ class Scope:
         if is_method:
             sc.selfvar = sc.vars[positional[0]]
         body_ir = []
+        sc.prebind_captured(fn, body_ir)
         sc.block(fn.body, body_ir, stack + [key])
         out.append(["scope", body_ir])
         # facts about the fields of objects passed as exactly one variable hold for the caller's variable too
